@@ -68,7 +68,18 @@ SLOTS = {
     "comment": "; a comment line", "blank": "", "star comment": "* star",
     "inline MC": INLINE_MC.strip("\n"),
     "guarded bondtype": "[ bondtypes ]\nTA TA 1 0.44 440",
+    # a complete conditional with both alternatives of a type-table entry
+    "alternative bondtypes": "#ifdef X\n[ bondtypes ]\nTB TA 1 0.46 460\n#else\n[ bondtypes ]\nTB TA 1 0.57 570\n#endif",
 }
+
+
+DECOY = """[ bondtypes ]
+TC TC 1 0.99 999
+[ moleculetype ]
+MA 1
+[ atoms ]
+1 TA 1 RX x1 1 0.0
+"""
 
 
 class Malformed(Exception):
@@ -180,7 +191,7 @@ def write_tree(d, files):
         p.write_text(text)
 
 
-Q_ALPHA = ["define X", "ifdef X", "ifndef X", "ifdef Y", "else", "endif", "include a", "include sub/b", "include sub2/b2", "include extra", "error",
+Q_ALPHA = ["alternative bondtypes", "define X", "ifdef X", "ifndef X", "ifdef Y", "else", "endif", "include a", "include sub/b", "include sub2/b2", "include extra", "error",
            "comment", "inline MC", "guarded bondtype"]
 T_ALPHA = sorted(SLOTS)
 
@@ -192,7 +203,7 @@ T_ALPHA = sorted(SLOTS)
                     "polyply.src.topology:Topology.from_gmx_topfile"],
            rejects=(), selector_only=True,
            must_cover=["read", "error directive", "malformed rejected", "conditional include taken", "conditional include skipped", "nested include", "repeated name",
-                       "same include string in two directories", "directives spelled with extra whitespace"],
+                       "same include string in two directories", "directives spelled with extra whitespace", "both alternatives of a conditional"],
            outside=["#define inside a conditional, nested conditionals (rejected by the reader by design)", "macros with values in conditions",
                     "data lines that continue a section across an #include", "the GROMACS include search path"],
            cfg={"path_timeout_s": 60},
@@ -261,10 +272,20 @@ def flatten_cond(sx, B):
                 raise symx.PathAbort()
             expect_exc = IOError
         real, real_exc = None, None
+        # the process runs in a directory that holds other files with the names used in the #include lines: includes are
+        # resolved relative to the including file, never relative to the working directory
+        rundir = os.path.join(d, "rundir")
+        os.makedirs(os.path.join(rundir, "sub"))
+        for rel in ("ff.itp", "a.itp", "extra.itp", "sub/b.itp"):
+            Path(rundir, rel).write_text(DECOY)
+        before_cwd = os.getcwd()
+        os.chdir(rundir)
         try:
             real = Topology.from_gmx_topfile(os.path.join(d, "system.top"), "sys")
         except (IOError, NotImplementedError, KeyError, ValueError) as e:
             real_exc = e
+        finally:
+            os.chdir(before_cwd)
         what = lambda: "top file:\n%s" % text
         if expect_exc is not None:
             sx.cover("error directive" if expect_exc is NotImplementedError else "malformed rejected")
@@ -288,6 +309,15 @@ def flatten_cond(sx, B):
                  lambda: what() + "\noriginal: %r\nflattened: %r\n%s" % (real_exc, ref_exc, "\n".join(flat)))
         return
     sx.cover("read")
+    if "alternative bondtypes" in slots and not any(s_ in ("ifdef X", "ifndef X", "ifdef Y") for s_ in slots):
+        # each alternative keeps the condition of its own branch (independent of the include-tree/flat comparison)
+        got_alt = sorted((tuple(p), (m or {}).get("condition"), (m or {}).get("tag")) for key, lst in real.types["bonds"].items()
+                         if tuple(key) in (("TB", "TA"), ("TA", "TB")) for p, m in lst if tuple(p)[1] in ("0.46", "0.57"))
+        n_alt = slots.count("alternative bondtypes")
+        want_alt = sorted([(("1", "0.46", "460"), "ifdef", "X"), (("1", "0.57", "570"), "ifndef", "X")] * n_alt)
+        sx.cover("both alternatives of a conditional")
+        sx.claim(got_alt == want_alt, "each alternative of an #ifdef/#else pair of type-table entries carries the condition of its own branch",
+                 lambda: what() + "\n%r" % (got_alt,))
     # which conditional includes were taken / skipped (by the oracle's own evaluation)
     defined_now, cond = set(), None
     for sl in slots:
